@@ -41,7 +41,7 @@ theorem step_rdvTok (s : St) (g : Nat) (i : Iid) (k k' : Key) (b : Bool)
   · cases b <;> rfl
   · cases b
     · by_cases hk0 : k0 = k'
-      · subst hk0; simp [hLk]; exact hLk
+      · subst hk0; simp; exact hLk
       · simp [hk0]; rfl
     · have h1 : L { setLocks s i (s.locks i + 1) with pcs := s.pcs.set g (.holding k'), mgr := .idle } k0
           = L (setLocks s i (s.locks i + 1)) k0 := rfl
@@ -124,6 +124,8 @@ theorem inv_step {b : Bool} (s s' : St) (hi : Inv s) (hs : Step b s s') : Inv s'
   case mgrRelLast k hm h0 => exact step_mgrRelLast s k hm h0 hi
   case mgrRelHand k hm h0 => exact step_mgrRelHand s k hm h0 hi
   case purge k i hm ht h0 => exact step_purge s k i hm ht h0 hi
+  case callUnlockSpur g k h => exact step_callUnlockSpur s g k h hi
+  case rdvRelSpur g k h hm hfree => exact step_rdvRelSpur s g k h hm hfree hi
 
 theorem inv_init (n : Nat) : Inv (St.init n) := by
   refine ⟨fun k => ?_, ?_, ?_, ?_⟩
